@@ -63,13 +63,16 @@ type Gate struct {
 	Inline func(caller, callee *ssa.Function, depth int) bool
 	// NoInline lists functions never expanded (by FuncName).
 	NoInline map[string]bool
-	stack    []*ssa.Function
+	// Pure lists repository functions (by FuncName) treated as side-effect
+	// free, deterministic functions of their arguments when not inlined.
+	Pure  map[string]bool
+	stack []*ssa.Function
 	seq      int
 	Funcs    map[string]bool // functions evaluated (incl. inlined)
 }
 
 func NewGate(p *Prog) *Gate {
-	return &Gate{P: p, U: NewU(), MaxDepth: 6, NoInline: map[string]bool{}, Funcs: map[string]bool{}}
+	return &Gate{P: p, U: NewU(), MaxDepth: 6, NoInline: map[string]bool{}, Pure: map[string]bool{}, Funcs: map[string]bool{}}
 }
 
 // mem is the store-forwarding memory of one top-level evaluation.
@@ -117,6 +120,9 @@ type frame struct {
 	heads map[*ssa.BasicBlock]bool
 	tag   string
 	defers []*ssa.Defer
+	order  []*ssa.BasicBlock
+	relCache map[*ssa.BasicBlock][]Ref
+	curRC  Ref
 }
 
 func (g *Gate) eval(fn *ssa.Function, args []*E, bindings []*E, m *mem, base Ref) *Summary {
@@ -155,6 +161,7 @@ func (g *Gate) eval(fn *ssa.Function, args []*E, bindings []*E, m *mem, base Ref
 	}
 	f.sum.Loops = len(f.heads)
 	order := rpo(fn, f.back)
+	f.order = order
 	for _, b := range order {
 		f.block(b)
 	}
@@ -230,9 +237,27 @@ func (f *frame) block(b *ssa.BasicBlock) {
 	if f.heads[b] {
 		f.havocLoopMemory(b)
 	}
+	f.curRC = rc
 	for _, in := range b.Instrs {
 		f.instr(b, in, rc)
 	}
+}
+
+// underRC resolves the outer if-then-else layers of v that are decided by
+// the reach condition of the block being evaluated.
+func (f *frame) underRC(v *E) *E {
+	u := f.g.U
+	for v.Op == "ite" && f.curRC != True {
+		switch {
+		case u.bdd.Implies(f.curRC, v.B):
+			v = v.Args[0]
+		case u.bdd.Implies(f.curRC, u.bdd.Not(v.B)):
+			v = v.Args[1]
+		default:
+			return v
+		}
+	}
+	return v
 }
 
 // loopBlocks returns the natural loop of header h.
@@ -370,7 +395,7 @@ func (f *frame) load(addr *E, typ types.Type) *E {
 		return u.ITE(addr.B, f.load(addr.Args[0], typ), f.load(addr.Args[1], typ))
 	}
 	if v, ok := f.mem.m[f.memKey(addr)]; ok {
-		return v
+		return f.underRC(v)
 	}
 	switch addr.Op {
 	case "faddr":
@@ -519,7 +544,30 @@ func (f *frame) call(in ssa.Instruction, c *ssa.CallCommon, rc Ref, typ types.Ty
 		case "cap":
 			return u.mk("cap", "", typ, args[0])
 		case "append":
-			return u.mk("append", "", typ, args...)
+			// append(s, e0, e1, ...) is compiled to a slice of a fresh array;
+			// recover the elements from the forwarded stores.
+			if len(args) == 2 && args[1].Op == "slice" && args[1].Args[0].Op == "alloc" {
+				arr := args[1].Args[0]
+				if pt, ok := arr.Typ.Underlying().(*types.Pointer); ok {
+					if at, ok := pt.Elem().Underlying().(*types.Array); ok && at.Len() <= 16 {
+						elems := []*E{args[0]}
+						okAll := true
+						for i := int64(0); i < at.Len(); i++ {
+							ia := u.mk("iaddr", "", nil, arr, u.Int(i))
+							v, ok := f.mem.m[f.memKey(ia)]
+							if !ok {
+								okAll = false
+								break
+							}
+							elems = append(elems, f.underRC(v))
+						}
+						if okAll {
+							return u.mk("append", "elems", typ, elems...)
+						}
+					}
+				}
+			}
+			return u.mk("append", "spread", typ, args...)
 		case "copy", "delete", "clear":
 			e := u.mk("call", "builtin."+b.Name(), typ, args...)
 			f.addEffect(Effect{Cond: rc, Kind: "call", Call: e, Pos: in.Pos(), Ins: in})
@@ -567,7 +615,7 @@ func (f *frame) call(in ssa.Instruction, c *ssa.CallCommon, rc Ref, typ types.Ty
 		}
 	}
 	name := calleeName(callee)
-	if IsPureLib(name) {
+	if IsPureLib(name) || f.g.Pure[FuncName(callee)] {
 		return u.mk("call", name, typ, args...)
 	}
 	// impure / unknown: the result is unique to this call site
@@ -959,23 +1007,91 @@ func (f *frame) phi(b *ssa.BasicBlock, in *ssa.Phi, rc Ref) *E {
 		return e
 	}
 	var v *E
+	rel := f.relEdgeConds(b)
 	for i := len(b.Preds) - 1; i >= 0; i-- {
 		p := b.Preds[i]
-		ec := f.edgeCond(p, b)
-		if ec == False {
+		if f.edgeCond(p, b) == False {
 			continue
 		}
+		ec := rel[i]
 		x := f.val(in.Edges[i])
 		if v == nil {
 			v = x
 		} else {
-			v = u.ITE(u.bdd.Restrict(ec, rc), x, v)
+			v = u.ITE(ec, x, v)
 		}
 	}
 	if v == nil {
 		return u.mk("unreachable", "", in.Type())
 	}
 	return v
+}
+
+// localCond is the branch condition of edge p->b alone (no reach condition).
+func (f *frame) localCond(p, b *ssa.BasicBlock) Ref {
+	u := f.g.U
+	if len(p.Instrs) == 0 {
+		return True
+	}
+	if iff, ok := p.Instrs[len(p.Instrs)-1].(*ssa.If); ok {
+		c := u.ToBool(f.val(iff.Cond))
+		t, e := p.Succs[0] == b, p.Succs[1] == b
+		switch {
+		case t && e:
+			return True
+		case t:
+			return c
+		default:
+			return u.bdd.Not(c)
+		}
+	}
+	return True
+}
+
+// relEdgeConds returns, for each predecessor edge of join block b, the
+// condition of taking that edge relative to b's immediate dominator (so that
+// φ selectors mention only the branches between the dominator and the join).
+func (f *frame) relEdgeConds(b *ssa.BasicBlock) []Ref {
+	u := f.g.U
+	if c, ok := f.relCache[b]; ok {
+		return c
+	}
+	d := b.Idom()
+	rel := map[*ssa.BasicBlock]Ref{}
+	if d != nil {
+		rel[d] = True
+	}
+	for _, x := range f.order {
+		if x == d || x == b || d == nil || !d.Dominates(x) {
+			continue
+		}
+		if _, done := f.rc[x]; !done {
+			continue
+		}
+		var r Ref = False
+		for _, p := range x.Preds {
+			if f.back[[2]int{p.Index, x.Index}] {
+				continue
+			}
+			if pr, ok := rel[p]; ok {
+				r = u.bdd.Or(r, u.bdd.And(pr, f.localCond(p, x)))
+			}
+		}
+		rel[x] = r
+	}
+	out := make([]Ref, len(b.Preds))
+	for i, p := range b.Preds {
+		if pr, ok := rel[p]; ok && !f.back[[2]int{p.Index, b.Index}] {
+			out[i] = u.bdd.And(pr, f.localCond(p, b))
+		} else {
+			out[i] = False
+		}
+	}
+	if f.relCache == nil {
+		f.relCache = map[*ssa.BasicBlock][]Ref{}
+	}
+	f.relCache[b] = out
+	return out
 }
 
 // ---- helpers for rules ----
